@@ -21,9 +21,13 @@
    level).  That the byte stream of a link, cut into arbitrary reads, delivers
    exactly the messages written into it, in order, is C04_partition_independent /
    C04_messages_intact (with C03_frame_length for constructed messages), and that
-   a constructed message parses back to its fields is C03_parse_own; the lifting
-   of the theorem below from message schedules to byte schedules is by those
-   theorems IN PROSE - it is not formalised here, hence the name `_partial`.
+   a constructed message parses back to its fields is C03_parse_own.  The lifting
+   of the message-level theorem to byte schedules is formalised in the second half
+   of this file (C11_bytes_refine_messages, C11_end_to_end_byte_level_partial for
+   any codec under the premise [good_run]), and the premise is discharged for the
+   codec of Model/WireCodec.v in the third (C11_in_flight_headers,
+   C11_end_to_end_within_size_limit: what remains is the bound of 2^27 bytes on
+   the messages in flight, which the message-level model does not decide).
    The correspondence run does cut every message into random reads.            *)
 From Tx Require Import Lib.Base Model.PyVal Model.Validators Model.Marshal Model.BusNames Model.ProxyCall Model.System.
 From Tx Require Import Spec.WireSpec Spec.Readback Spec.Conforms Spec.WireTyped Spec.SystemSpec.
@@ -219,8 +223,9 @@ Proof. exact bytes_refine_messages. Qed.
    produce nor for the concrete codec of Model/WireCodec.v (Message.marshal_header /
    the header part of parse_message) - it is decided by computation on the example below
    and checked by the correspondence run on every message of every case (OpsC11 `codec`).
-   What remains for the name C11_end_to_end: the invariant "in flight => encodable" for
-   WireCodec from C03_wellformed / C03_frame_length / C03_parse_own. *)
+   The premise is discharged for the concrete codec, up to the size limit, by
+   C11_in_flight_headers / C11_sized_run_is_good_run below; C11_end_to_end_within_size_limit
+   is this theorem without [good_run]. *)
 Theorem C11_end_to_end_byte_level_partial :
   forall (g : config) (enc : BusRoute.bmsg -> bytes) (dec : bytes -> option BusRoute.bmsg)
          (h0 : list BusRoute.event) (serial0 : nat -> N)
@@ -275,3 +280,115 @@ Example C11_bytewise_delivery :
   s_net (bs_sys (fst y_run)) = [] /\ s_open (bs_sys (fst y_run)) = [] /\
   good_runb x_cfg y_enc y_dec (binit (init x_h0 (fun _ => 10))) y_sched = true.
 Proof. exact example_bytes. Qed.
+
+(* ======================================================================================
+   The premise [good_run], discharged for the codec of Model/WireCodec.v
+   (Proofs/WireCodecProofs.v, Proofs/SystemCodecProofs.v).
+
+   [hdr_ok m]: m is little-endian, of type 1..4, flags below 4, serial and reply serial
+   within UINT32, path an object path, interface / member / error name / destination /
+   sender DBus strings, signature ASCII of at most 255 bytes, only the fields of its type's
+   table present.  [fits m]: header + padding + body are at most 2^27 bytes. *)
+From Tx Require Import Proofs.WireCodecProofs Proofs.SystemCodecProofs.
+
+(* such a message is encoded well-framed (marshal_header: C03_frame_length / C03_fixed_part)
+   and its encoding parses back to it (the header half of C03_parse_own; the body stays raw) *)
+Theorem C11_header_ok_encodable :
+  forall fuel m, hdr_ok m -> fits m -> (4 <= fuel)%nat -> encodable (wire_enc fuel) (wire_dec fuel) m.
+Proof. exact hdr_ok_encodable. Qed.
+
+(* ':1.<n>' is a DBus string for every n: no hypothesis on unique names is needed *)
+Theorem C11_unique_name_is_string : forall c, MsgSpec.string_ok (unique_name c) = true.
+Proof. exact unique_name_string_ok. Qed.
+
+(* INVARIANT of System.step, under side conditions on the configuration only ([cfg_ok g]: the
+   declared return signatures of the exported methods are ASCII of at most 255 bytes; the
+   error name Model/Dispatch.v leaves open - KEncodeError, in txdbus the class name of a
+   marshalling exception - is an interface name): every message in flight satisfies
+   [hdr_ok], whichever of the model's senders wrote it -
+     (a) the calls of DBusClientConnection.callRemote ([hdr_ok_call_msg], from validate_args
+         and the header check),
+     (b) the replies of the dispatcher ([hdr_ok_reply], [handle_wf], [fire_wf]: destination
+         and reply serial are those of a call that was itself in flight),
+     (c) what the bus forwards ([hdr_ok_forwarded], [bus_step_fwd]: the table-filtered copy
+         with the sender's unique name; cf. C14_unchanged),
+     (d) the bus's own replies and signals are not carried by Model/System.v: nothing to show. *)
+Theorem C11_in_flight_headers :
+  (forall g s a, cfg_ok g -> HdrInv s -> HdrInv (step g s a)) /\
+  (forall h0 serial0, HdrInv (init h0 serial0)).
+Proof. exact (conj hdrinv_step hdrinv_init). Qed.
+
+(* hence, for byte-level runs with the concrete codec: [good_run] follows from the size bound
+   alone.  [sized_run g fuel bs sched]: at every step of the run every message in flight
+   [fits].  Model/System.v does not decide sizes (message.py refuses to marshal more than
+   2^27 bytes; the model sends whatever the body codec produced), so this stays a premise
+   on the run; it is decidable ([sized_runb]). *)
+Theorem C11_sized_run_is_good_run :
+  forall g fuel h0 serial0 sched,
+    cfg_ok g -> (4 <= fuel)%nat ->
+    sized_run g fuel (binit (init h0 serial0)) sched ->
+    good_run g (wire_enc fuel) (wire_dec fuel) (binit (init h0 serial0)) sched.
+Proof. exact sized_good_init. Qed.
+
+Theorem C11_sized_run_decidable :
+  forall g fuel sched bs, sized_runb g fuel bs sched = true -> sized_run g fuel bs sched.
+Proof. exact sized_runb_ok. Qed.
+
+Theorem C11_bytes_refine_messages_within_size_limit :
+  forall g fuel h0 serial0 sched,
+    cfg_ok g -> (4 <= fuel)%nat -> sized_run g fuel (binit (init h0 serial0)) sched ->
+    bs_sys (fst (brun g (wire_enc fuel) (wire_dec fuel) h0 serial0 sched))
+    = run g h0 serial0 (snd (brun g (wire_enc fuel) (wire_dec fuel) h0 serial0 sched)).
+Proof. exact bytes_refine_messages_sized. Qed.
+
+(* The end-to-end statement over BYTE-level schedules with the codec of Model/WireCodec.v
+   and NO premise about encodability: C11_end_to_end_byte_level_partial with [good_run]
+   replaced by [cfg_ok g] (configuration), [4 <= fuel] (codec recursion fuel) and
+   [sized_run] (no message in flight above 2^27 bytes). *)
+Theorem C11_end_to_end_within_size_limit :
+  forall (g : config) (fuel : nat)
+         (h0 : list BusRoute.event) (serial0 : nat -> N)
+         (bpre bpost : list baction) (i j : client) (pidx : nat) (member : str) (args : list pyval) (kw : kwargs)
+         (px : proxy) (q : creq) (d : str) (ts_in ts_out : list ty) (ws_in : list wval)
+         (o : Dispatch.object) (im : Dispatch.iface) (m : Dispatch.meth),
+  let enc := wire_enc fuel in
+  let dec := wire_dec fuel in
+  let B := fst (BusRoute.run h0) in
+  let s1 := bs_sys (fst (brun g enc dec h0 serial0 bpre)) in
+  let st := bs_sys (fst (brun g enc dec h0 serial0 (bpre ++ BApp (ACall i pidx member args kw) :: bpost))) in
+  let n := p_serial (proc_of g s1 i) in
+  let id := Calls.st_next_id (s_calls s1 i) in
+  let dc := arriving_call q (arrived ts_in ws_in) (unique_name i) (Z.of_N n) in
+  cfg_ok g -> (4 <= fuel)%nat ->
+  sized_run g fuel (binit (init h0 serial0)) (bpre ++ BApp (ACall i pidx member args kw) :: bpost) ->
+  all_hello B -> mem i (b_clients (BusRoute.r_bus B)) = true -> mem j (b_clients (BusRoute.r_bus B)) = true ->
+  validate_bus (unique_name i) = true ->
+  nth_error (s_proxies s1 i) pidx = Some px ->
+  call_remote (ifaces_of (p_heap (proc_of g s1 i)) (px_ifaces px)) (px_bus px) (px_path px) member args kw = PcCall q ->
+  q_expect q = true -> q_dest q = Some d -> route B d = Some j ->
+  q_sig q = Some (show_list ts_in) -> q_args q = args ->
+  constructible q -> n <= Calls.max_serial ->
+  passed ts_in args ws_in (g_fuel g) ->
+  DispatchSpec.distinct_interfaces (g_exports g j) -> DispatchSpec.builtin dc = false ->
+  DispatchSpec.addressed (g_exports g j) dc = DispatchSpec.TMethod o im m ->
+  DispatchSpec.candidates o (Dispatch.i_name im) (q_member q) <> [] ->
+  q_rs q = Calls.RsStr (Dispatch.m_out m) -> Dispatch.m_out m = show_list ts_out ->
+  quiescent st -> ~ stuck g i j st ->
+  exists f l x,
+    In f (DispatchSpec.candidates o (Dispatch.i_name im) (q_member q)) /\
+    only (has_tag (tag_of i n)) (s_invs st) (j, tag_of i n, DispatchSpec.expected_invocation dc f) /\
+    only (has_tag (tag_of i n)) (s_results st) (j, tag_of i n, l) /\
+    only (is_done i id) (s_done st) (i, id, x) /\
+    mirrors ts_out (g_fuel g) l x.
+Proof. exact end_to_end_bytes_sized. Qed.
+
+(* Non-vacuity of the new hypotheses: the byte-wise scenario above, in a configuration
+   satisfying [cfg_ok]; the size bound holds at every step (decided by computation), the run
+   amounts to order B and ends quiescent with both calls completed. *)
+Example C11_sized_hypotheses_inhabited :
+  cfg_ok z_cfg /\
+  (sized_runb z_cfg 8 (binit (init x_h0 (fun _ => 10))) y_sched = true /\
+   snd z_run = x_order_b /\
+   x_done (bs_sys (fst z_run)) = [(3, 0%nat, CValue (Some (PInt 9))); (1, 0%nat, CValue (Some (PInt 7)))] /\
+   s_net (bs_sys (fst z_run)) = [] /\ s_open (bs_sys (fst z_run)) = []).
+Proof. exact (conj z_cfg_ok example_sized). Qed.
